@@ -1,5 +1,8 @@
 """C18 - results respect problem symmetries (reordering, scaling, added zeros)."""
-from .multi import job
+import json, os
+from .multi import job, agree_job
+
+VEC = {v['name']: v for v in json.load(open(os.path.join(os.path.dirname(os.path.dirname(os.path.abspath(__file__))), 'vectors.json')))['partition']}
 
 W = 'c18'
 
@@ -16,7 +19,36 @@ def jobs(tier):
     J.append(job(W, 'dp', 3, size=3, obj='diff'))
     for alg in ('ff', 'ffd', 'bf', 'bfd', 'cdec', 'c23', 'c34'):
         J.append(job(W, alg, 3)); J.append(job(W, alg, 4, order='desc'))
+    # agreement of the exact solvers with one another (no oracle involved), also on the repository's 7-8-item vectors
+    # (every extra algorithm on the same path multiplies the paths: all of them together only on the smallest shapes, pairs beyond)
+    for (n, k) in ((3, 2), (3, 4), (3, 3)):
+        J.append(agree_job(n, k))
+    J.append(agree_job(4, 2, obj='min', order='desc')); J.append(agree_job(4, 2, order='desc'))
+    for algs, heur in ((['ckk', 'snp', 'rnp'], ['kk']), (['cg', 'dp'], ['greedy']), (['ckk', 'cg'], [])):
+        J.append(agree_job(4, 3, order='desc', algs=algs, heur=heur))
+    J.append(agree_job(4, 3, obj='max', order='desc', algs=['cg', 'dp'], heur=['greedy', 'kk', 'multifit']))
+    J.append(agree_job(7, 3, vector=VEC['walter'], holes=[2], algs=['ckk', 'snp', 'rnp', 'cg'], heur=['kk', 'greedy']))
+    J.append(agree_job(7, 4, vector=VEC['walter'], holes=[4], algs=['snp', 'rnp', 'cg'], heur=['kk']))
+    # tier C: inputs with repeated values - 6 to 9 items taking two or three distinct symbolic values (ties are where pruning bugs live)
+    X = dict(order='asc', algs=['snp', 'rnp', 'cg'], heur=['kk'])
+    for g in ([3, 2, 2], [2, 2, 3], [2, 3, 2], [4, 3], [3, 4]):
+        J.append(agree_job(7, 4, groups=g, **X))
+    J.append(agree_job(6, 4, groups=[2, 2, 2], order='asc', algs=['snp', 'rnp', 'cg', 'ckk'], heur=['kk']))
+    J.append(agree_job(6, 3, groups=[2, 2, 2], order='asc', algs=['snp', 'rnp', 'cg', 'ckk', 'dp'], heur=['kk', 'greedy']))
+    J.append(agree_job(9, 3, groups=[3, 3, 3], **X)); J.append(agree_job(8, 4, groups=[4, 4], **X)); J.append(agree_job(8, 5, groups=[5, 3], **X))
     if tier == 'thorough':
+        Y = dict(order='asc', algs=['snp', 'rnp', 'cg'], heur=['kk'])
+        J.append(agree_job(8, 4, groups=[3, 3, 2], **Y)); J.append(agree_job(8, 4, groups=[2, 3, 3], **Y)); J.append(agree_job(8, 5, groups=[3, 3, 2], mandatory=False, **Y))
+        J.append(agree_job(7, 4, groups=[1, 2, 2, 2], mandatory=False, **Y)); J.append(agree_job(7, 4, groups=[2, 2, 2, 1], mandatory=False, **Y))
+        J.append(agree_job(7, 5, groups=[3, 2, 2], **Y)); J.append(agree_job(7, 3, groups=[3, 2, 2], order='asc', algs=['ckk', 'snp', 'rnp', 'cg'], heur=['kk']))
+        X = dict(algs=['ckk', 'snp', 'rnp', 'cg'], heur=['kk', 'greedy'])
+        for h in range(7):
+            J.append(agree_job(7, 3, vector=VEC['walter'], holes=[h], **X)); J.append(agree_job(7, 4, vector=VEC['walter'], holes=[h], algs=['snp', 'rnp', 'cg'], heur=['kk']))
+            J.append(agree_job(7, 4, vector=VEC['c02-text'], holes=[h], algs=['snp', 'rnp', 'cg'], heur=['kk'], mandatory=False))
+        for h in (0, 3, 7):
+            J.append(agree_job(8, 3, vector=VEC['snp-test-8'], holes=[h], **X)); J.append(agree_job(8, 4, vector=VEC['ilp-doctest-8'], holes=[h], algs=['snp', 'rnp'], heur=['kk'], mandatory=False))
+        J.append(agree_job(4, 3, algs=['ckk', 'snp', 'rnp'], heur=['kk'])); J.append(agree_job(4, 3, algs=['cg', 'dp'], heur=['greedy']))
+        J.append(agree_job(5, 3, order='desc', algs=['ckk', 'cg'], heur=[], mandatory=False)); J.append(agree_job(5, 2, obj='min', order='desc', algs=['cg', 'dp'], heur=['greedy']))
         for alg in ('greedy', 'kk', 'ckk', 'snp', 'rnp'):
             J.append(job(W, alg, 4, size=3)); J.append(job(W, alg, 5, size=3, order='desc'))
         for alg in ('ffd', 'bfd', 'cdec', 'c23', 'c34'):
@@ -24,7 +56,7 @@ def jobs(tier):
     return J
 
 
-ASSUMPTIONS = ['S1 numpy shim', 'S2 exact arithmetic', 'S3 constant hash', 'scale factors 3 and 10 (2 and 1024 for multifit); all permutations for n<=3, reversal/rotation/swap beyond',
+ASSUMPTIONS = ['tier C shapes: 6-9 items taking two or three distinct symbolic values in non-decreasing order of value (every value of those variables, ties between groups included)', 'S1 numpy shim', 'S2 exact arithmetic', 'S3 constant hash', 'scale factors 3 and 10 (2 and 1024 for multifit); all permutations for n<=3, reversal/rotation/swap beyond',
                'exact algorithms with 3 or more bins compared by optimal value, others by the multiset of sums']
-OUTSIDE = ['agreement of exact solvers on 11-16 items (a single path there takes minutes)', 'scale factors 2, 7, 2^10 for non-multifit algorithms', 'more than 4 items (quick) / 5 (thorough)',
+OUTSIDE = ['agreement of exact solvers on 11-16 items (a single path there takes minutes; agreement is checked up to 8 items, tier B)', 'scale factors 2, 7, 2^10 for non-multifit algorithms', 'more than 4 items (quick) / 5 (thorough)',
            'bin completion (division by a scaled symbolic bin size is not encoded)', 'ilp']
